@@ -385,6 +385,7 @@ theorem forLoop_sim_step (item : Str) (a i len : Nat) (body : Stmt) {σ₁ σ₂
       · apply RSim.bindP (h3.removeVar item); intro cur ψ₁ ψ₂ h4
         exact ih.forLoop item a (i+1) len body _ _ (h4.writeBack a i cur)
 
+omit ih in
 /-- wrapping a loop: run with a fresh control record, then pop it -/
 theorem popLoop_bind {r₁ r₂ : Res St} (h : SSim r₁ r₂) : SSim (r₁.bind popLoop) (r₂.bind popLoop) :=
   RSim.bind h (fun _ _ hs => hs.popLoop)
@@ -415,7 +416,7 @@ theorem stmt_sim_step (s : Stmt) {σ₁ σ₂ : St} (h0 : StSim σ₁ σ₂) :
       simp only [Stmt.norm]
       apply RSim.bindP (ih.expr count _ _ h); intro v υ₁ υ₂ h1
       cases v with
-      | num n => exact popLoop_bind ih (ih.repeatLoop (countOf n) body _ _ (by stsim h1))
+      | num n => exact popLoop_bind (ih.repeatLoop (countOf n) body _ _ (by stsim h1))
       | null => exact RSim.rtErr h1
       | bool b => exact RSim.rtErr h1
       | str x => exact RSim.rtErr h1
@@ -423,7 +424,7 @@ theorem stmt_sim_step (s : Stmt) {σ₁ σ₂ : St} (h0 : StSim σ₁ σ₂) :
       | obj a => exact RSim.rtErr h1
     | repeatUntil cond body rt ut =>
       simp only [Stmt.norm]
-      exact popLoop_bind ih (ih.untilLoop cond body _ _ (by stsim h))
+      exact popLoop_bind (ih.untilLoop cond body _ _ (by stsim h))
     | forEach item itemTok list body ft et int lt =>
       simp only [Stmt.norm]
       apply RSim.bindP (ih.expr list _ _ h); intro v υ₁ υ₂ h1
